@@ -1090,6 +1090,12 @@ def main():
                     guarded(cx, run_case, c)
                     n_exh += 1
         res.exhaustive_parts.append(f"one byte replaced at every offset of a 13-byte block (thorough: and a 16-byte block) ({n_exh} transfers)")
+        # blocks whose byte sum is below 256 (high checksum byte 0x00): the low checksum byte replaced by 0x00 makes the field read 0x0000,
+        # which must still be a checksum error (NAK), not "nothing to verify"
+        for k in range(6):
+            c = gen_case(rng, 0, direction="H2E")
+            c.update(stream=1, function=1, w=False, system=1 + k % 2, fault=(0, 12, 0), chunks=[1000], pumped=False, jitter=0, watchdog=3.0)
+            guarded(cx, run_case, c)
         # every BIT of every header byte, for odd and even functions, W-bit set and unset
         n_bits = 0
         for function in (1, 2):
